@@ -421,15 +421,20 @@ static int try_decode(const struct cfg *c2, unsigned services, const struct txli
 static const char *explain(const struct cfg *c, const struct txline *t, const char *key)
 {
 	static long cache_case = -1;
-	static unsigned cache_id[8];
-	static const char *cache_key[8];
+	static unsigned cache_id[16];
+	static int cache_line[16];
+	static const char *cache_in[16];
+	static const char *cache_key[16];
 	static int ncache;
 	const char *q = NULL;
 	double floor_rate = (t->s->kind == K_TTX) ? 13.5e6 : 2 * t->s->clock;
 	int i;
 	if (!c->judged || !g_tx) return key;
 	if (cache_case != vf_case) { cache_case = vf_case; ncache = 0; }
-	for (i = 0; i < ncache; i++) if (cache_id[i] == t->s->id) return cache_key[i] ? cache_key[i] : key;
+	/* the verdict is cached per (service, line, kind of failure) only: every other failure is diagnosed
+	   on its own, so that an unrelated fault cannot inherit a quirk key */
+	for (i = 0; i < ncache; i++)
+		if (cache_id[i] == t->s->id && cache_line[i] == t->line && cache_in[i] == key) return cache_key[i] ? cache_key[i] : key;
 
 	if (t->s->kind == K_TTX && c->scanning == 525 && ((t->line == 21 && (c->req & VBI_SLICED_CAPTION_525_F1)) || (t->line == 284 && (c->req & VBI_SLICED_CAPTION_525_F2)))) {
 		/* Closed Caption 525 is identified by its line number and two start bits only */
@@ -469,7 +474,7 @@ static const char *explain(const struct cfg *c, const struct txline *t, const ch
 			if (try_decode(&c2, c->req, t)) { q = "model:C04:Q-marginal-sampling-rate"; vf_count("quirk_marginal_sampling_rate", 1); }
 		}
 	}
-	if (ncache < 8) { cache_id[ncache] = t->s->id; cache_key[ncache] = q; ncache++; }
+	if (ncache < 16) { cache_id[ncache] = t->s->id; cache_line[ncache] = t->line; cache_in[ncache] = key; cache_key[ncache] = q; ncache++; }
 	return q ? q : key;
 }
 
